@@ -18,4 +18,12 @@ PROPS = {
                      "(position, applicable fault kind, entry point) placement over the request pool is enumerated completely, multi-fault "
                      "plans are sampled; non-trivial = at least one fault fired that the model acts on; distinct = distinct (scenario, "
                      "callback event log) hashes"),
+    "C12": dict(level="exploration", race=False,
+                quick=dict(enum=True, seeds=3000), thorough=dict(enum=True, seconds=300),
+                rule="one evaluation = one request (valid, invalid, failing at execution, introspection) executed or validated under one "
+                     "map-iteration-order policy, on a schema built under another policy, after a seeded history of other requests, "
+                     "through Do / a shared plan cache / a prepared plan, and byte-compared with its reference response; request x 12 "
+                     "policies x {execute, rebuild schema, validate} is enumerated, histories are sampled; non-trivial = the library took "
+                     "at least one multi-key map-iteration decision under a non-default policy or after a history; distinct = distinct "
+                     "(scenario, number of order decisions) hashes"),
 }
